@@ -149,6 +149,16 @@ def check_carry(P, R, tu):
             l = strip(par["c"][0])
             if l is not None and l.get("k") == "DeclRefExpr":
                 acc = (l["d"], par)
+        elif par is not None and par.get("k") == "BinaryOperator" and par.get("op") == "+":
+            # acc = acc + carry, written out
+            up = fn.parent(par)
+            while up is not None and up.get("k") in CASTS + ("ParenExpr",):
+                up = fn.parent(up)
+            if up is not None and up.get("k") == "BinaryOperator" and up.get("op") == "=":
+                l = strip(up["c"][0])
+                if l is not None and l.get("k") == "DeclRefExpr" and any(
+                        (strip(o) or {}).get("k") == "DeclRefExpr" and (strip(o) or {}).get("d") == l.get("d") for o in par["c"]):
+                    acc = (l["d"], up)
     if acc is None:
         R.finding(rule, fn, "carry accumulation", "the midnight carry is not accumulated inside the loop over the increment's components: "
                   "dt_dtadd recomputes t.carry on every call, so the carry of all but the last component is lost (%d reads outside the loop)"
@@ -215,12 +225,19 @@ def check_mirror(P, R, tu):
     # names of the parameters may change: compare modulo the two parameter names
     pn, pc = fn.params[0]["n"], fn.params[1]["n"]
 
+    MIR = {"<=": ">=", ">=": "<=", "<": ">", ">": "<"}
+
     def canon(parts):
         def c1(x):
             return x.replace(pn + ".", "now.").replace(pc + "->", "clo->").strip("()")
-        return sorted((op, tuple(canon(a)), "") if isinstance(a, tuple) else (op, c1(a), c1(b).rstrip("Uu")) for op, a, b in parts)
-    MIR = {"<=": ">=", ">=": "<=", "<": ">", ">": "<"}
 
+        def atom(op, a, b):
+            a, b = c1(a), re.sub(r"^(-?\d+)[Uu]$", r"\1", c1(b))
+            if "now." in b and "now." not in a and op in MIR:
+                # the value examined on the left: `fst <= now` is `now >= fst`
+                a, b, op = b, a, MIR[op]
+            return (op, a, b)
+        return sorted((op, tuple(canon(a)), "") if isinstance(a, tuple) else atom(op, a, b) for op, a, b in parts)
     def mirror(parts):
         """the same test for a run in the other direction: comparisons turned round, the count of midnights passed negated"""
         out = []
